@@ -1,0 +1,28 @@
+//go:build verif
+
+// Contracts of this package for the deductive verifier in /verif (vcgo).
+// Comment-only; compiled only with -tags verif.
+
+package tcpproxy
+
+// The byte pipes of a tunnelled connection (C07): one goroutine per direction,
+// each copies with io.Copy and closes the end it wrote to when the copy ends
+// (ghosts and assumed contracts of io.Copy / net.Conn.Close: server/proxy/verif_contracts.go).
+
+//@ contract (*Server).forward$1
+//@   serves C07
+//@   requires[conns] s != nil && conn != nil && upstream != nil
+//@   requires[fresh-step] !gCopied && gCopyCount == 0
+//@   ensures[one-direction] gCopyCount == 1 && gCopyDst == asIface(conn, "io.Writer") && gCopySrc == asIface(upstream, "io.Reader")
+//@   ensures[close-propagates] gPipeClosed == conn && gPipeClosedAfterCopy
+//@ contract (*Server).forward$2
+//@   serves C07
+//@   requires[conns] s != nil && upstream != nil && conn != nil
+//@   requires[fresh-step] !gCopied && gCopyCount == 0
+//@   ensures[one-direction] gCopyCount == 1 && gCopyDst == asIface(upstream, "io.Writer") && gCopySrc == asIface(conn, "io.Reader")
+//@   ensures[close-propagates] gPipeClosed == upstream && gPipeClosedAfterCopy
+//@ contract (*Server).forward
+//@   serves C07
+//@   requires[conns] conn != nil && upstream != nil
+//@   requires[fresh-step] !spawned("(*Server).forward$1") && !spawned("(*Server).forward$2")
+//@   ensures[both-directions] spawned("(*Server).forward$1") && spawned("(*Server).forward$2")
